@@ -23,7 +23,9 @@ def run_oracles(prop, case, ist, iobs, flavor, replay=False):
     if ist == "hang":
         return _hang_problem(ist) if spec.get("hang_is_violation") else []
     if ist == "crash":
-        return [{"kind": "raw-exception", "step": -1, "at": None, "detail": str(iobs)}] if spec.get("crash_is_violation") else []
+        if not spec.get("crash_is_violation") or (spec.get("crash_filter") and not spec["crash_filter"](iobs)):
+            return []
+        return [{"kind": "raw-exception", "step": -1, "at": None, "detail": str(iobs)}]
     out = []
     for fn in spec["oracles"]:
         out.extend(fn(case, iobs, flavor))
@@ -44,6 +46,25 @@ def _lazy2(name):
         return getattr(multichecks, name)(tier, seed)
     f.__name__ = name
     return f
+
+
+def _lazy18(name):
+    def f(tier, seed):
+        from . import c18
+        return getattr(c18, name)(tier, seed)
+    f.__name__ = name
+    return f
+
+
+def _c18_is_raw(iobs):
+    """impl.run_guarded reports ANY exception escaping create_machine/start/send as `RAW:<Class>: msg`; for C18 a
+    library error (XStateMachineError subclass) at that point is the CORRECT outcome, only other classes are raw"""
+    import xstate_statemachine.exceptions as ex
+    lib = {n for n, c in vars(ex).items() if isinstance(c, type) and issubclass(c, ex.XStateMachineError)}
+    s = str(iobs)
+    if not s.startswith("RAW:"):
+        return True
+    return s[4:].split(":", 1)[0].strip() not in lib
 
 
 def _c07_builtin(case, obs, flavor):
@@ -136,6 +157,18 @@ PROPS = {
         "q_checks": [_lazy2("c16_determinism")],
         "thorough_scale": 5,
     },
+    "C18": {
+        # config front end: everything is in the q_checks (harness/xsmverif/c18.py); the replays of the open
+        # findings run through the ordinary sync runner, where a raw exception escaping the API is a crash
+        "flavors": ["sync"],
+        "streams": [],
+        "oracles": [],
+        "crash_is_violation": True,
+        "crash_filter": _c18_is_raw,
+        "q_checks": [_lazy18("c18_spellings"), _lazy18("c18_targets"), _lazy18("c18_corruptions")],
+        "lake_targets": ["driver_c18"],
+        "thorough_scale": 8,
+    },
     "C20": {
         "flavors": ["sync", "async"],
         "streams": [("descr", "sync", 250), ("descr", "async", 100)],
@@ -171,11 +204,30 @@ def _pure_skips_builtins(prob, case, flavor):
     return prob.get("kind") == "pure-api-disagrees" and prob.get("has_builtin_followups") is True
 
 
+def _raw_site(message_re, *sites):
+    """a raw (non-library) exception escaping the API whose innermost library frame is one of `sites`
+    (`<ExceptionClass>@<file>:<qualified function>`) and whose message (concrete values blanked) matches
+    `message_re` — as reported by c18.c18_corruptions"""
+    import re
+    rx = re.compile(message_re)
+
+    def f(prob, case, flavor):
+        return prob.get("kind") == "raw-exception" and prob.get("site") in sites and bool(rx.search(prob.get("message", "")))
+    return f
+
+
 CLASSIFIERS = {
     "pure-api-forgets-history": _pure_forgets_history,
     "pure-api-revives-finished-machine": _pure_revives_done,
     "pure-api-does-not-process-raise-or-choose": _pure_skips_builtins,
     "completed-then-left-final-in-same-event": _left_final_same_event,
+    "c18-raw-site:non-dict-config": _raw_site(r"object has no attribute _$", "AttributeError@factory.py:create_machine"),
+    "c18-raw-site:maxIterations": _raw_site(r"int\(\)", "TypeError@models.py:MachineNode.__init__", "ValueError@models.py:MachineNode.__init__"),
+    "c18-raw-site:non-string-target": _raw_site(r"^Transition target must be a string", "TypeError@resolver.py:resolve_target_state"),
+    "c18-raw-site:non-string-action-type": _raw_site(r"object has no attribute _$", "AttributeError@sync_interpreter.py:SyncInterpreter._execute_actions"),
+    "c18-raw-site:guard-operands-not-a-list": _raw_site(r"object is not iterable$", "TypeError@models.py:GuardDefinition.__init__"),
+    "c18-raw-site:states-not-a-dict": _raw_site(r"object has no attribute _$", "AttributeError@models.py:StateNode._parse_initial"),
+    "c18-raw-site:unhashable-invoke-src": _raw_site(r"^unhashable type", "TypeError@base_interpreter.py:BaseInterpreter._schedule_state_tasks"),
     "root-declares-onDone": _root_has_ondone,
     "outer-done-shadowed-by-nearer-onDone": _shadowed_done,
 }
